@@ -12,7 +12,8 @@ import (
 
 // G is the single source of randomness.
 type G struct {
-	R *rand.Rand
+	R   *rand.Rand
+	Seq int
 }
 
 func New(seed int64) *G {
